@@ -9,8 +9,14 @@ use crate::text::*;
 use std::io::Write;
 
 fn junk(rng: &mut Rng) -> String {
+    // unknown words, near-misses of the six commands, wrong case, and non-ASCII text (none of these characters is white
+    // space for Rust's split_whitespace/trim: U+FEFF byte-order mark, accented letters, arrows, emoji, ligatures)
     rng.pick(&["", " ", "\t", "   ", "hello", "UCI", "Uci", "isready?", "stop", "ponderhit", "setoption name Hash value 16", "debug on", "register later",
-               "go_depth 3", "positions startpos", "quitt", "xyzzy 1 2 3", "d", "eval", "?", "ucinewgamee", "bestmove e2e4"]).to_string()
+               "go_depth 3", "positions startpos", "quitt", "xyzzy 1 2 3", "d", "eval", "?", "ucinewgamee", "bestmove e2e4",
+               "QUIT", "Quit now", "ISREADY", "Position startpos", "GO depth 1", "uciok", "readyok",
+               "\u{feff}xyzzy", "\u{feff}uci", "\u{feff}isready", "\u{feff}", "uci\u{feff}", "\u{e9}chec", "\u{2192} go depth 1", "uc\u{ef}", "\u{1f642} isready", "\u{fb01}sready",
+               "\u{4f4d}\u{7f6e} startpos", "quit\u{301}", "\u{0}", "a\u{0}b", "\u{7f}uci", "-", "--help", "'uci'", "\"isready\"",
+               "xxxxxxxxxxxxxxxxxxxxxxxxxxxxxxxxxxxxxxxxxxxxxxxxxxxxxxxxxxxxxxxxxxxxxxxxxxxxxxxxxxxxxxxxxxxxxxxxxxxxxxxxxxxxxxxxxxxxxxxxxxxxxxxxxxxxxxxxxxxxxxxxxxxxxxxxxxxxxxxxxxxxxxxxxxxxxxxxxxxxxxxxxxxxxxxxxxxxxxxxxxxxxxxxxxxxxxxxxxxxxxxxxxxxxxxxxxxxxxxxxxxxxxxxxxxxxxxxxxxxxxxxxxxxxxxxxxxxxxxxxxxxxxxxxxxxxxxxxxxxxxxxx"]).to_string()
 }
 
 pub fn run(rng: &mut Rng, n: usize, outdir: &std::path::Path, flavour: &str) {
@@ -26,7 +32,7 @@ pub fn run(rng: &mut Rng, n: usize, outdir: &std::path::Path, flavour: &str) {
                 0 => lines.push("uci".into()),
                 1 => lines.push("isready".into()),
                 2 => lines.push(junk(rng)),
-                3 => lines.push(if rng.chance(1, 2) { "  isready  ".into() } else { "\tuci".into() }),
+                3 => lines.push(rng.pick(&["  isready  ", "\tuci", "uci now please", "isready 1 2 3", "isready\t", " \t uci \t ", "uci uci", "isready isready quit"]).to_string()),
                 4 => { lines.push("ucinewgame".into()); cur = Board::default(); }
                 5 => lines.push(junk(rng)),
                 6 | 7 => {
@@ -69,7 +75,7 @@ pub fn run(rng: &mut Rng, n: usize, outdir: &std::path::Path, flavour: &str) {
             }
         }
         if flavour != "noquit" && rng.chance(2, 3) {
-            lines.push("quit".into());
+            lines.push(rng.pick(&["quit", "quit", " quit ", "quit now", "quit\t0"]).to_string());
             if rng.chance(1, 3) { lines.push("isready".into()); }
         }
         let lines: Vec<String> = lines.into_iter().map(|l| l.replace(";;", "")).collect();
